@@ -34,6 +34,7 @@ type runCase struct {
 	Outside []string          `json:"outside"` // files created in a sibling dir of the project dir
 	Banned2 []string          `json:"banned2"` // a second, separate WithBannedDirectives option
 	RawRoot string            `json:"rawroot"` // if set: spelling of the root path relative to the project dir, used verbatim
+	Warm    []string          `json:"warm"`    // other root files of the same directory, validated first in this process (results dropped)
 }
 
 type errObs struct {
@@ -316,6 +317,11 @@ func once(c *runCase, base string, want map[string]bool) (o *runObs) {
 	rootPath := filepath.Join(base, c.Root)
 	if c.RawRoot != "" {
 		rootPath = base + string(filepath.Separator) + c.RawRoot // not cleaned on purpose
+	}
+	for _, w := range c.Warm {
+		if wj, werr := kit.NewJapi(filepath.Join(base, w), oo...); werr == nil {
+			_ = wj.ValidateJAPI()
+		}
 	}
 	j, rerr := kit.NewJapi(rootPath, oo...)
 	if rerr != nil {
